@@ -43,6 +43,7 @@ type startEvent struct {
 	element     *schema.StartEvent
 	mch         chan imessage
 	once        sync.Once
+	running     atomic.Bool
 	activated   atomic.Bool
 	idGenerator id.IGenerator
 	satisfier   *logic.CatchEventSatisfier
@@ -78,6 +79,7 @@ func newStartEvent(wr *wiring, element *schema.StartEvent, idGenerator id.IGener
 
 func (evt *startEvent) run(ctx context.Context, sender tracing.ISenderHandle) {
 	defer sender.Done()
+	defer evt.running.Store(false)
 
 	for {
 		select {
@@ -113,6 +115,13 @@ func (evt *startEvent) flow(ctx context.Context) {
 }
 
 func (evt *startEvent) ConsumeEvent(ev event.IEvent) (result event.ConsumptionResult, err error) {
+	// A node whose goroutine is not running holds no token and reads nothing from its
+	// inbox: the event cannot concern it, and queueing it would eventually block the
+	// caller (and every consumer behind this one) for good.
+	if !evt.running.Load() {
+		result = event.Consumed
+		return
+	}
 	evt.mch <- eventMessage{event: ev}
 	result = event.Consumed
 	return
@@ -121,6 +130,7 @@ func (evt *startEvent) ConsumeEvent(ev event.IEvent) (result event.ConsumptionRe
 func (evt *startEvent) Trigger(ctx context.Context) {
 	evt.once.Do(func() {
 		sender := evt.tracer.RegisterSender()
+		evt.running.Store(true)
 		go evt.run(ctx, sender)
 	})
 
@@ -130,6 +140,7 @@ func (evt *startEvent) Trigger(ctx context.Context) {
 func (evt *startEvent) NextAction(ctx context.Context, flow Flow) chan IAction {
 	evt.once.Do(func() {
 		sender := evt.tracer.RegisterSender()
+		evt.running.Store(true)
 		go evt.run(ctx, sender)
 	})
 
